@@ -1,7 +1,8 @@
 """Check configuration for C01 (loaded by bin/props.py)."""
-from props_common import STD_ASSUME
+from props_common import STD_ASSUME, KNOBS_ENGINES, KNOBS_ASSUME
 
 CFG = {
+    "knobs": KNOBS_ENGINES,
     "pkg": "banyand/internal/verif/props/c01",
     "level": "exploration",
     "level_text": ("seeded exploration of write/clock/query histories on a real standalone node (liaison front-end services + engines + query processors) inside a fake-clock bubble, "
@@ -17,5 +18,5 @@ CFG = {
         "real": ["banyand/liaison/grpc measure/stream/trace Write+Query services", "banyand/measure (write callback, tsTable, parts, flusher, merger, query)", "banyand/internal/storage (segments, series index)", "banyand/query processors", "pkg/query/logical + executors", "pkg/index/inverted (bluge)", "pkg/fs on tmpfs"],
         "stub": ["metadata registry (simmeta)", "gRPC transport (in-memory server streams)", "clock (testing/synctest)", "observability (bypass registry), protector (Nop)"],
     },
-    "assumptions": STD_ASSUME + ["fault-free configuration: no crashes or I/O errors are injected for this property (those belong to C04); schedule variety comes from the fake clock only"],
+    "assumptions": STD_ASSUME + [KNOBS_ASSUME, "fault-free configuration: no crashes or I/O errors are injected for this property (those belong to C04); schedule variety comes from the fake clock only"],
 }
